@@ -22,11 +22,12 @@ META = {
         "through the proxy's _run_request, and results are indexed positionally; C01.7 method names travel unchanged: attribute "
         "access on a method object yields <name>.<attr> bound to the same sender (abstractly evaluated), the proxy / notifier / "
         "MultiCall create method objects / jobs for the requested name, a batch job is serialised from its own fields; C01.8 the "
-        "HTTP handler hands the decoded body to the dispatcher and writes the dispatcher's reply."),
+        "HTTP handler hands the decoded body to the dispatcher and writes the dispatcher's reply; C01.9 (imported from C17.3) request "
+        "and response bodies are decoded once from the joined reads on both sides, so a non-ASCII argument or result survives any chunking."),
     "does_not_decide": "equality of values after JSON normalisation, Unicode/float fidelity of the backend, socket "
                        "behaviour of the three transports, exactly-once across retries inside xmlrpc.client.",
     "rules": {"C01.1": "CFG exploration + provenance", "C01.2": "provenance of arguments", "C01.3": "exploration with a call counter",
-              "C01.4": "provenance + dominance", "C01.5": "dominance / post-dominance on normal paths", "C01.6": "provenance of the join operand", "C01.7": "shape interpreter + provenance", "C01.8": "provenance"},
+              "C01.4": "provenance + dominance", "C01.5": "dominance / post-dominance on normal paths", "C01.6": "provenance of the join operand", "C01.7": "shape interpreter + provenance", "C01.8": "provenance", "C01.9": "imported C17.3"},
     "assumptions": ["xmlrpc.client._Method stores its two constructor arguments as __send and __name"],
 }
 
@@ -451,3 +452,8 @@ def check(ck):
     okk = any(call_name(c) == "append" and dump(c.func.value) == "self._job_list" for c in ast.walk(fa.node) if isinstance(c, ast.Call))
     ck.require(okk, "C01.6", "%s: jobs appended" % q.fn(fa), "append keeps submission order", "jobs are not appended to the job list", q.loc(fa, fa.node))
     ck.floor("C01.6", 6)
+
+    # ---- C01.9 body reassembly on both sides (shared with C17.3) ---------------------------------------------------------
+    from rules import c17
+    common.import_rules(ck, c17, {"C17.3": "C01.9"})
+    ck.floor("C01.9", 5)
